@@ -605,7 +605,12 @@ def eof(ctx, facts, ex):
         ctx.ob("EOF", f"{name}:error-arm-yields-err", oke, "extend()'s Error is yielded as an Err item" if oke else "extend()'s Error (leftover bytes / upstream failure) is not turned into an Err item", site_of(b, err_t[0]) if err_t else site_of(b))
         if need_pending:
             gs = malsec.guards(b, r"Option::<T>::is_(some|none)$")
-            gs = [g for g in gs if "pending_len" in str(g[1])]
+            # the pending length may live in the field or, for the duration of a poll, in a local taken from it
+            carried = set()
+            for cbb, ct in b.calls():
+                if (F.callee(ct)[0] or "").endswith("Option::<T>::take") and "pending_len" in str(flow.expr_of(b, ct["args"][0], max_depth=6)) and len(ct["d"]) == 1:
+                    carried |= {l for l in flow.local_aliases_fwd(b, ct["d"][0]) if len(b.defs().get(l, [])) > 1}
+            gs = [g for g in gs if "pending_len" in str(g[1]) or any(f"('place', {l}" in str(g[1]) for l in carried)]
             okp = False
             for gbb, e, ed, c in gs:
                 tgt_nopending = ed[0] if c[1].endswith("is_some") else ed[1]
@@ -672,11 +677,47 @@ def state(ctx, facts):
         return
     ctx.count(bodies=1)
     dom = b.dominators()
+    def is_field(p):
+        return len(p) > 1 and any(isinstance(x, list) and x[0] == "f" and x[2:] == ["pending_len"] for x in p)
     writes = []
     for bb, idx, s in b.iter_assigns():
-        p = s["p"]
-        if len(p) > 1 and any(isinstance(x, list) and x[0] == "f" and x[2:] == ["pending_len"] for x in p):
+        if is_field(s["p"]):
             writes.append((bb, idx, flow.expr_of(b, s["r"]["o"]) if s["r"]["k"] == "use" else ("?",)))
+    # the state may be carried in a local for the duration of one poll: `let mut p = this.pending_len.take()` ...
+    carrier = None
+    for bb, t in b.calls():
+        if (F.callee(t)[0] or "").endswith("Option::<T>::take") and "pending_len" in str(flow.expr_of(b, t["args"][0], max_depth=6)) and len(t["d"]) == 1:
+            al = flow.local_aliases_fwd(b, t["d"][0])
+            multi = [l for l in al if len(b.defs().get(l, [])) > 1]
+            if multi:
+                carrier = (multi[0], bb)
+    if carrier is not None:
+        L, take_bb = carrier
+        lw = [(bb, idx, flow.expr_of(b, s["r"]["o"]) if s["r"]["k"] == "use" else ("?",)) for bb, idx, s in b.iter_assigns() if s["p"] == [L] and bb != take_bb]
+        stores = {bb for bb, idx, e in writes if e[0] in ("place",) and e[1] == L or (e[0] == "place" and L in e)}
+        stores |= {bb for bb, idx, s in b.iter_assigns() if is_field(s["p"]) and s["r"]["k"] == "use" and F.op_local(s["r"]["o"]) in flow.local_aliases_fwd(b, L) | {L}}
+        rets = list(flow.ret_blocks(b))
+        lost = None
+        # where the local is known to be None nothing has to be written back (the field was emptied by take())
+        none_known = set()
+        for g in malsec.guards(b, r"Option::<T>::is_(none|some)$"):
+            if f"('place', {L}" in str(g[1]) or "Option::<T>::take" in str(g[1]):
+                none_known.add(g[2][1] if g[3][1].endswith("is_none") else g[2][0])
+        for sbb in b.live_blocks():
+            t_ = b.term(sbb)
+            if t_["k"] == "switch":
+                e_ = flow.expr_of(b, t_["o"])
+                if e_[0] == "disc" and (e_[1][:2] == ("place", L)):
+                    none_known |= {tgt for v, tgt in t_["ts"] if int(v) == 0}
+        for wbb in [take_bb] + [x[0] for x in lw if not (x[2][0] == "agg" and isinstance(x[2][1], tuple) and x[2][1][1] == "None")]:
+            others = {x[0] for x in lw if x[0] != wbb} | none_known
+            reach = flow.reach_avoiding(b, b.succs(wbb), stores | others)
+            if any(r in reach for r in rets) and wbb not in stores:
+                # which exit?
+                lost = wbb
+                break
+        ctx.ob("STATE", "carried-state-stored-back", lost is None, "the length prefix held in a local during the poll is written back to pending_len before every return" if lost is None else "the pending length prefix is held in a local and a return (e.g. Poll::Pending while waiting for the rest of the record) is reachable without writing it back: the prefix is lost and the next poll parses payload bytes as a length", site_of(b, lost) if lost is not None else site_of(b, take_bb))
+        writes = lw
     ctx.floor("STATE", "pending_len writes", len(writes), 2)
     body_reads = [(bb, t) for bb, t in b.calls() if (F.callee(t)[0] or "") == BD + "read_bytes"]
     if len(body_reads) != 1:
@@ -684,7 +725,7 @@ def state(ctx, facts):
         return
     rbb, rt = body_reads[0]
     n_e = str(flow.expr_of(b, rt["args"][1]))
-    okr = "pending_len" in n_e
+    okr = "pending_len" in n_e or (carrier is not None and (f"('place', {carrier[0]}" in n_e or "Option::<T>::take" in n_e))
     ctx.ob("STATE", "body-read-uses-pending-length", okr, "read_bytes(pending_len)" if okr else "the record body is read with a length that is not the pending length prefix", site_of(b, rbb))
     # the Option holding the body
     body_local = rt["d"][0] if len(rt["d"]) == 1 else None
@@ -695,7 +736,7 @@ def state(ctx, facts):
             ok = "read_infallible" in s
             ctx.ob("STATE", "set-from-length-read", ok, "pending_len = Some(length read from the buffer)" if ok else "pending_len is set from something other than a Length read out of the buffer", site_of(b, bb, idx))
             # only when none is pending
-            gs = [g for g in malsec.guards(b, r"Option::<T>::is_none$") if "pending_len" in str(g[1])]
+            gs = [g for g in malsec.guards(b, r"Option::<T>::is_none$") if "pending_len" in str(g[1]) or (carrier is not None and f"('place', {carrier[0]}" in str(g[1]))]
             okg = any(flow.dominates(dom, g[2][1], bb) for g in gs)
             ctx.ob("STATE", "set-only-when-none-pending", okg, "a new length is read only when no record is pending" if okg else "a new length prefix can be read while a record body is still pending (the pending length is overwritten: desynchronised framing)", site_of(b, bb, idx))
         elif e[0] == "agg" and isinstance(e[1], tuple) and e[1][1] == "None":
